@@ -112,10 +112,11 @@ Theorem C01_duplicates_rejected : forall (R : Type) (f : kwargs -> R) (comps : R
   (values_ok i = false -> checked_core f comps i = (ORejected, []))
   /\ (values_ok i = true -> checked_core f comps i = core f comps i)
   /\ (values_ok i = true <-> Forall (@NoDup Z) (i_combo_values i))
-  /\ GenRunner.gen_duplicates_rejected_by_equality = true /\ GenRunner.gen_prologue_is_transcribed = true.
+  /\ GenRunner.gen_duplicates_rejected_by_equality = true /\ GenRunner.gen_prologue_is_transcribed = true
+  /\ GenRunner.gen_linear_runners_are_transcribed = true.
 Proof.
   intros R f comps i. unfold checked_core. split; [intros ->; reflexivity|]. split; [intros ->; reflexivity|].
-  split; [|exact (conj BridgeRunner.bridge_duplicates BridgeRunner.bridge_prologue)].
+  split; [|exact (conj BridgeRunner.bridge_duplicates (conj BridgeRunner.bridge_prologue BridgeRunner.bridge_linear_runners))].
   unfold values_ok. rewrite forallb_forall, Forall_forall. split; intros H l Hl; apply dup_free_NoDup, H, Hl.
 Qed.
 
